@@ -16,6 +16,10 @@ def gen(rng, n, tier):
             off = Fr(2) ** rng.choice([20, 23, 30]) * rng.choice([1, -1])
             hd = sx.rec(h); hd["bins"] = [[[a + off, b + off] for a, b in ax] for ax in hd["bins"]]
             h = [[k, v] for k, v in hd.items()]
+        setter = "F"
+        if sx.rec(h)["dtype"] == "int64" and rng.random() < 0.3:      # fractional squared errors put on integer contents through the errors2 setter
+            hd = sx.rec(h); hd["err2"] = [Fr(rng.randint(0, 40), 8) for _ in hd["err2"]]; setter = "T"
+            h = [[k, v] for k, v in hd.items()]
         d = sx.rec(h); ndim = len(d["bins"])
         axis = rng.choice(["none"] + list(range(ndim)) * 2)
         axes = list(range(ndim)) if axis == "none" else [axis]
@@ -32,11 +36,17 @@ def gen(rng, n, tier):
             op = ["minfreq", thr]; bucket = "minfreq"
         by_name = "T" if (axis != "none" and rng.random() < 0.4) else "F"
         yield [["bucket", bucket + ("-%dd" % ndim)], ["hist", h], ["op", op], ["axes", axes], ["integral", integral],
-               ["inplace", rng.choice(["T", "F"])], ["axis_none", "T" if axis == "none" else "F"], ["by_name", by_name]]
+               ["err2_setter", setter], ["inplace", rng.choice(["T", "F"])], ["axis_none", "T" if axis == "none" else "F"], ["by_name", by_name]]
 
 def impl(case):
     d = sx.rec(case); hd = sx.rec(d["hist"])
-    h = C.mk_hist(hd)
+    if d.get("err2_setter") == "T":
+        import numpy as np
+        hd0 = dict(hd); hd0["err2"] = [0] * len(hd["err2"])
+        h = C.mk_hist(hd0)
+        h.errors2 = np.array([float(x) for x in hd["err2"]]).reshape(h.shape)
+    else:
+        h = C.mk_hist(hd)
     before = C.snap(h)
     kw = {}
     if d["op"][0] == "amount":
